@@ -22,6 +22,8 @@ use crate::version::registry::Registry;
 /// Cached parsed packages for a document
 struct DocumentCache {
     packages: Vec<PackageInfo>,
+    /// Latest text of the document (re-checked when a background fetch completes)
+    content: String,
 }
 
 pub struct Backend<S: VersionStorer> {
@@ -104,7 +106,13 @@ impl<S: VersionStorer> Backend<S> {
             .unwrap_or_default();
 
         let mut docs = self.documents.write().expect("documents lock poisoned");
-        docs.insert(uri.clone(), DocumentCache { packages });
+        docs.insert(
+            uri.clone(),
+            DocumentCache {
+                packages,
+                content: content.to_string(),
+            },
+        );
     }
 
     /// Check if a registry is enabled in the configuration
@@ -298,6 +306,7 @@ impl<S: VersionStorer> Backend<S> {
             let client = self.client.clone();
             let parser = resolver.parser().clone();
             let matcher = resolver.matcher().clone();
+            let documents = self.documents.clone();
 
             tokio::spawn(async move {
                 debug!("Background task started for fetching packages");
@@ -314,6 +323,17 @@ impl<S: VersionStorer> Backend<S> {
                             ),
                         )
                         .await;
+
+                    // The document may have been edited (or closed) while the fetch was
+                    // running: re-check the text it has now, not the one this task started with
+                    let current = documents
+                        .read()
+                        .expect("documents lock poisoned")
+                        .get(&uri)
+                        .map(|doc| doc.content.clone());
+                    let Some(content) = current else {
+                        return;
+                    };
 
                     let diagnostics = generate_diagnostics(&*parser, &*matcher, &*storer, &content);
 
